@@ -1,5 +1,5 @@
 (* C05 — mutations through child views propagate to every enclosing view.  Property theorems only. *)
-Require Import RM.Base RM.Gindex RM.Tree RM.Types RM.Spec RM.ModelViews RM.ModelCodec RM.ModelMut RM.ModelStore RM.StoreProofs RM.CRepProofs RM.ReprProofs RM.MutProofs.
+Require Import RM.Base RM.Gindex RM.Tree RM.Types RM.Spec RM.ModelViews RM.ModelCodec RM.ModelMut RM.ModelStore RM.StoreProofs RM.CRepProofs RM.SerProofs2 RM.ReprProofs RM.MutProofs RM.StoreChain.
 Local Open Scope N_scope.
 
 (* writing a new backing through a child view obtained by [i] / .field stores it in the child and,
@@ -73,3 +73,56 @@ Print Assumptions C05_vector_child.
 Print Assumptions C05_list_child.
 Print Assumptions C05_parent_reads_child.
 Print Assumptions C05_frame.
+
+(* ---- store level, hook chains of ANY depth (StoreChain.v) ----
+   Chain H s tr: tr = the written view, its parent, the parent's parent, ...: every cell represents its
+   value and every hook is valid in its parent.  Chains arise from top-level views by [i] / .field / value(): *)
+Theorem C05_chain_get : forall H src s p pv lk rest pc i e old, Chain H s ((p, pv, lk) :: rest) -> nth_error s p = Some pc ->
+  elem_at (cty pc) pv i = Some (e, old) -> hooked e = true ->
+  exists m, run_cmd H src s (CGet p (Z.of_N i)) = (Ok tt, s ++ [{| cty := e; cback := m; chook := HElem p i |}]) /\
+            Chain H (s ++ [{| cty := e; cback := m; chook := HElem p i |}]) ((length s, old, LElem i) :: (p, pv, lk) :: rest).
+Proof. exact chain_get. Qed.
+
+Theorem C05_chain_value : forall H src s p pv lk rest pc o old, Chain H s ((p, pv, lk) :: rest) -> nth_error s p = Some pc ->
+  uelem (cty pc) pv = Some (o, old) -> hooked o = true ->
+  exists m, run_cmd H src s (CValue p) = (Ok tt, s ++ [{| cty := o; cback := m; chook := HUnionValue p |}]) /\
+            Chain H (s ++ [{| cty := o; cback := m; chook := HUnionValue p |}]) ((length s, old, LUnion) :: (p, pv, lk) :: rest).
+Proof. exact chain_value. Qed.
+
+(* writing a backing that represents x through the bottom view: every enclosing view of the chain then
+   represents its value with the nested slot replaced (retrail), no hook or type changed, no cell outside
+   the chain changed *)
+Theorem C05_chain_set : forall H src tr s, Chain H s tr -> forall cid v lk rest c x nb fuel,
+  tr = (cid, v, lk) :: rest -> nth_error s cid = Some c -> wf (cty c) x = true -> Repr H (cty c) x nb ->
+  (length tr <= S fuel)%nat ->
+  exists s', set_backing H src fuel s cid nb = (Ok tt, s') /\ Chain H s' (retrail x tr) /\ same_shape s s' /\
+             (forall u, (forall e, In e tr -> fst (fst e) <> u) -> nth_error s' u = nth_error s u).
+Proof. exact chain_set. Qed.
+
+(* every mutating command (set, append, pop, bit set, union change) through the bottom view of a chain:
+   it fails and the whole store is untouched, or the view takes the value the command specifies
+   (cmd_effect) and the whole chain is updated *)
+Theorem C05_cmd_on_chain : forall H src s cm tr cid v lk rest,
+  Chain H s tr -> tr = (cid, v, lk) :: rest -> target cm = cid -> mutating cm = true ->
+  (exists e, run_cmd H src s cm = (Err e, s)) \/
+  (exists x s', cmd_effect (cty_at s cid) v cm = Some x /\ run_cmd H src s cm = (Ok tt, s') /\
+     Chain H s' (retrail x tr) /\ same_shape s s' /\
+     (forall u, (forall e, In e tr -> fst (fst e) <> u) -> nth_error s' u = nth_error s u)).
+Proof. exact cmd_on_chain. Qed.
+
+(* what a chain means for the observer: every view in it has the root and the encoding of its value *)
+Theorem C05_chain_observed : forall H src s tr, Chain H s tr -> forall u w lk, In (u, w, lk) tr ->
+  exists c, nth_error s u = Some c /\ wf (cty c) w = true /\ Repr H (cty c) w (cback c) /\
+            root H (cback c) = htr H (cty c) w /\ ser_ok H src (cty c) w (cback c).
+Proof. exact chain_observe. Qed.
+
+(* chains of depth 3 exist *)
+Theorem C05_chain_nonvacuous : forall H, exists s tr, Chain H s tr /\ length tr = 3%nat.
+Proof. intros H. exact (chain_exists H (fun _ => None)). Qed.
+
+Print Assumptions C05_chain_get.
+Print Assumptions C05_chain_value.
+Print Assumptions C05_chain_set.
+Print Assumptions C05_cmd_on_chain.
+Print Assumptions C05_chain_observed.
+Print Assumptions C05_chain_nonvacuous.
